@@ -113,6 +113,21 @@ RangeDet(r, n) ==
            LET s0 == Proj(r.s.date, Y, TRUE)
                e0 == Proj(r.e.date, Y, FALSE)
            IN (s0 # NoDate /\ e0 # NoDate) => ((s0 <= e0) <=> (Shift(r.s, s0) <= Shift(r.e, e0)))
+     \* occurrences whose offsets make them degenerate: the written end (this year's, or next year's for a range written
+     \* across the year end) must not come before the start once shifted, and an occurrence must be over before the next
+     \* one starts (`Jan 9-Fr-Dec 31 +4 days`, `2025 Dec 28-Jan 31 -35 days`: which end closes which start then depends on
+     \* the years an implementation happens to look at)
+     /\ (~he) =>
+           \A Y \in (IF hs THEN {r.s.date.year} ELSE (y - 2)..(y + 1)) :
+              LET s0 == Proj(r.s.date, Y, TRUE)
+                  e0 == Proj(r.e.date, Y, FALSE)
+                  e1 == Proj(r.e.date, Y + 1, FALSE)
+                  sN == Proj(r.s.date, Y + 1, TRUE)
+                  eY == IF e0 # NoDate /\ s0 <= e0 THEN e0 ELSE e1      \* the written end of the occurrence of year Y
+              IN (s0 # NoDate /\ eY # NoDate) =>
+                    /\ Shift(r.s, s0) <= Shift(r.e, eY)
+                    /\ (e0 # NoDate /\ e0 < s0) => Shift(r.e, e0) < Shift(r.s, s0)        \* the previous occurrence is over
+                    /\ (~hs /\ sN # NoDate) => Shift(r.e, eY) < Shift(r.s, sN)
 
 DateMatch(r, n) == IF IsSingle(r) THEN SingleMatch(r, n) ELSE RangeMatch(r, n)
 DateDet(r, n)   == IF IsSingle(r) THEN SingleDet(r, n) ELSE RangeDet(r, n)
